@@ -78,7 +78,7 @@ def layout_sig(fl):
     return ' '.join(out)
 
 
-def build_program(rng, isa, zones_pre, nstmt, max_addr, twin=None):
+def build_program(rng, isa, zones_pre, nstmt, max_addr, twin=None, macro_pair=None):
     """-> (lines, labels, isa) ; lines: [{'k','text',...}] with model addr/size/bytes; None if nothing could be built."""
     addr_bits = isa['general']['address_size']
     zt = layout.zone_table(addr_bits, (isa.get('predefined') or {}).get('memory_zones'))
@@ -197,6 +197,23 @@ def build_program(rng, isa, zones_pre, nstmt, max_addr, twin=None):
                         'tags': sorted(stmt_tags(isa, stmt, fl, ln['addr'], ln['size'], target_dir) |
                                        ({'twin-statement:operand-names-differ-in-case-only'} if ln.get('twin') else set())),
                         'sig': layout_sig(fl)})
+    # two neighbouring statements written as the two steps of a macro without operands: each step is encoded as the statement
+    # it is, at its own address and with its own size (an address-relative step knows nothing of its sibling)
+    if macro_pair is None:
+        macro_pair = rng.random() < 0.35
+    pairs = [i for i in range(len(out) - 1) if out[i]['k'] == 'instr' and out[i + 1]['k'] == 'instr' and
+             out[i]['addr'] + out[i]['size'] == out[i + 1]['addr'] and not any('twin' in t for t in out[i]['tags'] + out[i + 1]['tags'])]
+    if macro_pair and pairs and 'macros' not in isa:
+        rel_end = [i for i in pairs if any(t.startswith('relative:from-end') for t in out[i]['tags'] + out[i + 1]['tags'])]
+        rel = [i for i in pairs if any(t.startswith('relative:') for t in out[i]['tags'] + out[i + 1]['tags'])]
+        i = rng.choice(rel_end or rel or pairs)
+        isa['macros'] = {'c01_pair': [{'instructions': [out[i]['text'], out[i + 1]['text']]}]}
+        for j in (i, i + 1):
+            out[j]['tags'] = sorted(set(out[j]['tags']) | {'step-of-a-macro'} |
+                                    {'step-of-a-macro/' + t for t in out[j]['tags'] if t.startswith('relative:from-')})
+            out[j]['written'] = out[j]['text']
+        out[i]['text'] = rng.choice(['c01_pair', 'C01_PAIR', '  c01_pair'])
+        out[i + 1]['text'] = None
     return out
 
 
@@ -251,7 +268,8 @@ class C01(core.Check):
          'opcode-endian!=default', 'relative:from-start/forward', 'relative:from-start/backward',
          'relative:from-end/forward', 'relative:from-end/backward', 'negative-in-non-byte-multiple-field',
          'address:sliced', 'relative:curly', 'decorator:prefix', 'decorator:postfix', 'specific-operands',
-         'twin-statement:operand-names-differ-in-case-only', 'sets-and-specific-in-one-variant'] +
+         'twin-statement:operand-names-differ-in-case-only', 'sets-and-specific-in-one-variant', 'step-of-a-macro',
+         'step-of-a-macro/relative:from-end/forward', 'step-of-a-macro/relative:from-end/backward'] +
         [f'grid:{c}/{e}/{a}' for c in ('1', '2-7', '8', '9-15', '16', '17-31', '32', '33-63', '64')
          for e in ('big', 'little') for a in ('aligned', 'packed')])}
 
@@ -263,7 +281,7 @@ class C01(core.Check):
 
     def _case(self, obj, lines, fmt, tag):
         fn, text = isamod.render_isa(obj, fmt)
-        src = ''.join(l['text'] + '\n' for l in lines)
+        src = ''.join(l['text'] + '\n' for l in lines if l.get('text') is not None)
         return {'runs': [{'files': {fn: text, 'p.asm': src}, 'argv': ['compile', '-c', fn, 'p.asm', '-o', 'out.bin'],
                           'probes': ['steps', 'fields', 'sizes', 'contracts'], 'step_limit': 3_000_000}],
                 'meta': {'lines': lines, 'fmt': fmt}, 'tags': [tag]}
